@@ -37,6 +37,11 @@ def pivot():
     S.append(DSpec(EnumSpec("U8", [U("A", disc="200", disc_val=200), U("B"), U("C", disc="1 << 3", disc_val=8), U("D", fields=[Field("u32")])],
                             repr="u8", note="repr(u8), expression-valued discriminant"), dname="U8Kind", dderives=["strum::EnumIter", "PartialOrd"],
                    checks={"iter", "ord", "layout"}))
+    S.append(DSpec(EnumSpec("ReprC", [U("A"), U("B", fields=[Field("u8")]), U("C", fields=[Field("u32", name="x")], named=True)], repr="C",
+                            note="#[repr(C)] (no primitive integer): the discriminant enum must be repr(C) too (C-enum size)"),
+                   checks={"layout_c"}))
+    S.append(DSpec(EnumSpec("ReprCAlign", [U("A"), U("B", fields=[Field("u8")])], repr="C, align(8)", note="#[repr(C, align(8))]"),
+                   checks={"layout_c_align8"}))
     S.append(DSpec(EnumSpec("Priv", [U("A", fields=[Field("u8")]), U("B")], note="vis(pub(crate)) -> IntoDiscriminant is not implemented"),
                    dname="PrivD", vis="pub(crate)", into_disc=False))
     S.append(DSpec(EnumSpec("Pass", [U("A", raw_attrs=['#[strum_discriminants(strum(serialize = "aaa"))]']), U("B", fields=[Field("u8")])],
@@ -127,6 +132,10 @@ def program(ds: DSpec, pname, tier):
         lines.append("    assert!(core::mem::size_of::<%s>() == core::mem::size_of::<%s>(), \"#[repr] was not copied to the discriminant enum\");" % (D, R))
         lines.append("    let tag: %s = unsafe { *(&e as *const %s as *const %s) };   // primitive-repr enums start with their tag" % (R, E, R))
         lines.append('    assert!(tag == d_ref as %s, "the discriminant value differs from the real tag of the value");' % R)
+    if "layout_c" in ds.checks:
+        lines.append('    assert!(core::mem::size_of::<%s>() == core::mem::size_of::<core::ffi::c_int>(), "#[repr(C)] was not copied to the discriminant enum");' % D)
+    if "layout_c_align8" in ds.checks:
+        lines.append('    assert!(core::mem::align_of::<%s>() == 8, "#[repr(C, align(8))] was not copied to the discriminant enum");' % D)
     if "iter" in ds.checks:
         lines.append("    let it = <%s as strum::IntoEnumIterator>::iter().nth(ku);" % D)
         lines.append('    assert!(it == Some(d_ref), "EnumIter derived on the discriminant enum is not in declaration order");')
